@@ -1,6 +1,9 @@
 import SafeNet.Model.Upgrade
 import SafeNet.Proofs.ArgTable
 import SafeNet.Proofs.ArgParse
+import SafeNet.Proofs.ArgFinal
+import SafeNet.Proofs.ArgLex
+import SafeNet.Proofs.Upgrade
 /-!
 # C20 — upgraded services keep every setting, and antnode accepts what antctl writes
 
@@ -309,12 +312,9 @@ its argument (per `intent`, see `install_table_is_intent`), everything else stay
 def intendedTop (σ : Valuation) : Slots := slotsAfter evmDisplay activeTop σ installPre Slots.empty
 def intendedSub (σ : Valuation) : Slots := slotsAfter evmDisplay customDecls σ installPost Slots.empty
 
-/-- **parse_build_is_intended.** For every option record (EVM network one of the known variants) on which
-clap's final checks pass for the intended configuration — required arguments of the subcommand,
-`conflicts_with`, `required_if_eq` (hypotheses `htop`, `hsub`; `no_conflicting_flags` discharges the
-conflict part for inputs antctl can parse) — the clap-subset parser accepts the arguments written at
-installation and returns exactly the intended configuration and the subcommand of the record's network. -/
-theorem parse_build_is_intended (σ : Valuation) (v : String)
+/-- Lemma form with clap's final checks as hypotheses (`htop`, `hsub`); `parse_build_is_intended` below
+derives them from the input-side predicate `InputAccepted`. -/
+theorem parse_build_is_intended_of_checks (σ : Valuation) (v : String)
     (hv : σ ["options", "evm_network"] = .evm v) (hmem : v ∈ evmDisplay.map (·.1))
     (htop : finalChecks activeTop (intendedTop σ) = .ok ())
     (hsub : finalChecks (subDecls activeSubs (lookupD evmDisplay v)) (intendedSub σ) = .ok ()) :
@@ -324,9 +324,8 @@ theorem parse_build_is_intended (σ : Valuation) (v : String)
   exact parse_of_shape evmDisplay activeTop activeSubs _ _ _ evmSrc install_shape install_pre_declared
     install_post_declared words_are_subcommands install_pre_ids_nodup install_post_ids_nodup σ v hv hmem htop hsub
 
-/-- The same for the arguments regenerated at upgrade (its own closed form; the items are a
-permutation of the installed ones by `upgrade_args_equiv`). -/
-theorem parse_upgrade_accepted (σ : Valuation) (v : String)
+/-- Lemma form for the arguments regenerated at upgrade (its own closed form), final checks as hypotheses. -/
+theorem parse_upgrade_accepted_of_checks (σ : Valuation) (v : String)
     (hv : σ ["options", "evm_network"] = .evm v) (hmem : v ∈ evmDisplay.map (·.1))
     (htop : finalChecks activeTop (slotsAfter evmDisplay activeTop σ upgradePre Slots.empty) = .ok ())
     (hsub : finalChecks (subDecls activeSubs (lookupD evmDisplay v))
@@ -338,6 +337,267 @@ theorem parse_upgrade_accepted (σ : Valuation) (v : String)
   rw [buildUpgrade_eq]
   exact parse_of_shape evmDisplay activeTop activeSubs _ _ _ evmSrc upgrade_shape upgrade_pre_declared
     upgrade_post_declared words_are_subcommands upgrade_pre_ids_nodup upgrade_post_ids_nodup σ v hv hmem htop hsub
+
+/-! ### The input side: what `antctl add` guarantees about an option record
+
+clap's rejecting checks on the written arguments (`required`, `conflicts_with`, `required_if_eq`) are
+DERIVED from two facts about the option record itself: -/
+
+/-- `(source, printed value)`: the option record must not give that source this value, because antnode
+declares an argument antctl never writes as `required_if_eq(that argument, value)`. Computed from the
+regenerated clap declarations and the install table. -/
+def requiredIfTriggers (T : List Entry) : List (Src × String) :=
+  activeTop.flatMap fun d => d.requiredIfEq.flatMap fun ov =>
+    T.filterMap fun e =>
+      if entryId activeTop e = some ov.1 then
+        (match e.value with | some (s, _) => some (s, ov.2) | none => none)
+      else none
+
+/-- Today there is exactly one: a pinned metrics port printed as `0` (`--metrics-server-port 0` requires
+`--enable-metrics-server`, which antctl never writes): K-t. -/
+theorem required_if_triggers : requiredIfTriggers installPre = [(.var ["metrics_free_port"], "0")] := by decide
+
+/-- **InputAccepted**: what antctl guarantees about the option record it hands to `add_node`.
+* `conflictFree` — `PeersArgs`' own `conflicts_with` rules hold (the same clap struct parsed antctl's
+  command line; the one post-parse change, `ANT_PEERS`, respects them: `ant_peers_env_respects_first`);
+* `noTrigger` — no setting has the one value that makes antnode demand an argument antctl never writes
+  (`required_triggers`: a pinned metrics port is not `0`; K-t is the excluded case).
+Nothing else is needed: antnode's top level declares no required argument, and the three required
+arguments of `evm-custom` are written whenever the network is `Custom` (`final_checks_sub`). -/
+structure InputAccepted (σ : Valuation) : Prop where
+  conflictFree : InputConflictFree σ
+  noTrigger : ∀ p ∈ requiredIfTriggers installPre, asWord evmDisplay (evalSrc σ p.1) ≠ p.2
+
+theorem top_nothing_required : activeTop.all (fun d => !d.required) = true := by decide
+
+/-- guard sources of the pairs of entries that set two arguments of which one declares
+`conflicts_with` the other (by clap id, as `finalChecks` looks at them) -/
+def idConflictPairs (T : List Entry) : List (Src × Src) :=
+  activeTop.flatMap fun d => d.conflicts.flatMap fun c =>
+    T.flatMap fun e₁ => T.filterMap fun e₂ =>
+      if entryId activeTop e₁ = some d.id ∧ entryId activeTop e₂ = some c then
+        some (guardSrc e₁.guard, guardSrc e₂.guard)
+      else none
+
+theorem install_id_conflicts : (idConflictPairs installPre).all inputConflictPairs.contains = true := by decide
+
+/-- **Acceptance, top level.** For every option record antctl can hand to `add_node`, clap's final
+checks pass on the intended top-level configuration. -/
+theorem final_checks_top (σ : Valuation) (hσ : InputAccepted σ) :
+    finalChecks activeTop (intendedTop σ) = .ok () := by
+  apply finalChecks_ok
+  · intro d hd hreq
+    have := List.all_eq_true.mp top_nothing_required d hd
+    simp [hreq] at this
+  · intro d hd c hc
+    by_cases h1 : intendedTop σ d.id = .absent
+    · exact Or.inl h1
+    by_cases h2 : intendedTop σ c = .absent
+    · exact Or.inr h2
+    exfalso
+    rcases slotsAfter_present_inv evmDisplay activeTop σ d.id installPre Slots.empty h1 with h | ⟨e₁, he₁, hid₁, hg₁⟩
+    · exact h rfl
+    rcases slotsAfter_present_inv evmDisplay activeTop σ c installPre Slots.empty h2 with h | ⟨e₂, he₂, hid₂, hg₂⟩
+    · exact h rfl
+    have hmem : (guardSrc e₁.guard, guardSrc e₂.guard) ∈ idConflictPairs installPre := by
+      simp only [idConflictPairs, List.mem_flatMap, List.mem_filterMap]
+      exact ⟨d, hd, c, hc, e₁, he₁, e₂, he₂, by simp [hid₁, hid₂]⟩
+    have hin := List.all_eq_true.mp install_id_conflicts _ hmem
+    have hin' : (guardSrc e₁.guard, guardSrc e₂.guard) ∈ inputConflictPairs := by simpa using hin
+    exact hσ.conflictFree _ hin' ⟨present_of_guard σ _ hg₁, present_of_guard σ _ hg₂⟩
+  · intro d hd p hp hone
+    rcases slotsAfter_one_inv evmDisplay activeTop σ p.1 p.2 installPre Slots.empty hone with h | ⟨e, he, hid, src, r, hval, hword⟩
+    · simp [Slots.empty] at h
+    · have hmem : (src, p.2) ∈ requiredIfTriggers installPre := by
+        simp only [requiredIfTriggers, List.mem_flatMap, List.mem_filterMap]
+        exact ⟨d, hd, p, hp, e, he, by simp [hid, hval]⟩
+      exact hσ.noTrigger _ hmem hword
+
+/-- No subcommand option declares a conflict or a `required_if_eq`; only `evm-custom` has required
+options, and each of them is written by an entry of the install table guarded by "the network is Custom". -/
+theorem sub_no_conflicts :
+    evmDisplay.all (fun kv => (subDecls activeSubs kv.2).all (fun d => d.conflicts.isEmpty && d.requiredIfEq.isEmpty)) = true := by
+  decide
+theorem sub_required_only_custom :
+    evmDisplay.all (fun kv => kv.1 == "Custom" || (subDecls activeSubs kv.2).all (fun d => !d.required)) = true := by decide
+theorem custom_required_written :
+    customDecls.all (fun d => !d.required ||
+      installPost.any (fun e => entryId customDecls e == some d.id && e.guard == .evmCustom evmSrc)) = true := by decide
+
+/-- **Acceptance, subcommand.** For every option record (EVM network one of the known variants), clap's
+final checks pass on the intended subcommand configuration: the three required options of `evm-custom`
+are written exactly when the network is `Custom`. No hypothesis on the input is needed. -/
+theorem final_checks_sub (σ : Valuation) (v : String)
+    (hv : σ ["options", "evm_network"] = .evm v) (hmem : v ∈ evmDisplay.map (·.1)) :
+    finalChecks (subDecls activeSubs (lookupD evmDisplay v)) (intendedSub σ) = .ok () := by
+  obtain ⟨w, hw, hm⟩ := lookupD_of_mem evmDisplay v hmem
+  rw [hw]
+  have hnc := List.all_eq_true.mp sub_no_conflicts (v, w) hm
+  simp only [List.all_eq_true, Bool.and_eq_true, List.isEmpty_iff] at hnc
+  apply finalChecks_ok
+  · intro d hd hreq
+    by_cases hc : v = "Custom"
+    · subst hc
+      have hds : subDecls activeSubs w = customDecls := by rw [← hw]; rfl
+      rw [hds] at hd
+      have := List.all_eq_true.mp custom_required_written d hd
+      simp only [hreq, Bool.not_true, Bool.false_or, List.any_eq_true, Bool.and_eq_true, beq_iff_eq] at this
+      obtain ⟨e, he, hid, hg⟩ := this
+      apply slotsAfter_present evmDisplay customDecls σ d.id installPost Slots.empty
+      refine Or.inr ⟨e, he, hid, ?_⟩
+      rw [hg]
+      simp [guardHolds, evmSrc, evalSrc, hv]
+    · have := List.all_eq_true.mp sub_required_only_custom (v, w) hm
+      simp only [Bool.or_eq_true, beq_iff_eq, hc, false_or, List.all_eq_true, Bool.not_eq_true'] at this
+      have := this d hd
+      simp [hreq] at this
+  · intro d hd c hc
+    have := (hnc d hd).1
+    rw [this] at hc
+    simp at hc
+  · intro d hd p hp
+    have := (hnc d hd).2
+    rw [this] at hp
+    simp at hp
+
+/-- **parse_build_is_intended.** For every option record antctl can hand to `add_node` (`InputAccepted`;
+EVM network one of the known variants), the clap-subset parser ACCEPTS the arguments written at
+installation — required arguments, `conflicts_with` and `required_if_eq` included — and returns exactly
+the intended configuration and the subcommand of the record's network. -/
+theorem parse_build_is_intended (σ : Valuation) (v : String)
+    (hv : σ ["options", "evm_network"] = .evm v) (hmem : v ∈ evmDisplay.map (·.1)) (hσ : InputAccepted σ) :
+    ∃ x, activeSubs.find? (fun x => x.1 == lookupD evmDisplay v) = some x ∧
+      parseArgs (buildInstall σ) = .ok ⟨intendedTop σ, some (x.2.1, intendedSub σ)⟩ :=
+  parse_build_is_intended_of_checks σ v hv hmem (final_checks_top σ hσ) (final_checks_sub σ v hv hmem)
+
+/-! ### The upgrade is interpreted as the same configuration as the install -/
+
+theorem pre_perm : (upgradePre.map Entry.norm).Perm (installPre.map Entry.norm) := by decide
+theorem post_perm : (upgradePost.map Entry.norm).Perm (installPost.map Entry.norm) := by decide
+theorem upgrade_pre_norm_ids_nodup : ((upgradePre.map Entry.norm).filterMap (entryId activeTop)).Nodup := by decide
+theorem upgrade_post_norm_ids_nodup : ((upgradePost.map Entry.norm).filterMap (entryId customDecls)).Nodup := by decide
+
+/-- The closed form of the upgrade arguments IS the intended top-level configuration … -/
+theorem upgrade_slots_top (σ : Valuation) :
+    slotsAfter evmDisplay activeTop σ upgradePre Slots.empty = intendedTop σ := by
+  unfold intendedTop
+  rw [← slotsAfter_norm evmDisplay activeTop σ upgradePre, ← slotsAfter_norm evmDisplay activeTop σ installPre]
+  exact slotsAfter_perm evmDisplay activeTop σ pre_perm _ upgrade_pre_norm_ids_nodup
+
+/-- … and the intended subcommand configuration. -/
+theorem upgrade_slots_sub (σ : Valuation) :
+    slotsAfter evmDisplay customDecls σ upgradePost Slots.empty = intendedSub σ := by
+  unfold intendedSub
+  rw [← slotsAfter_norm evmDisplay customDecls σ upgradePost, ← slotsAfter_norm evmDisplay customDecls σ installPost]
+  exact slotsAfter_perm evmDisplay customDecls σ post_perm _ upgrade_post_norm_ids_nodup
+
+/-- **parse_upgrade_accepted.** For every option record antctl can hand to `add_node`, the arguments
+regenerated at upgrade from the registry entry `add_node` recorded are accepted — all of clap's checks
+included — and parse to the intended configuration. -/
+theorem parse_upgrade_accepted (σ : Valuation) (v : String)
+    (hv : σ ["options", "evm_network"] = .evm v) (hmem : v ∈ evmDisplay.map (·.1)) (hσ : InputAccepted σ) :
+    ∃ x, activeSubs.find? (fun x => x.1 == lookupD evmDisplay v) = some x ∧
+      parseArgs (buildUpgrade (recordOf σ)) = .ok ⟨intendedTop σ, some (x.2.1, intendedSub σ)⟩ := by
+  have htop := final_checks_top σ hσ
+  have hsub := final_checks_sub σ v hv hmem
+  rw [← upgrade_slots_top] at htop
+  rw [← upgrade_slots_sub] at hsub
+  have := parse_upgrade_accepted_of_checks σ v hv hmem htop hsub
+  rw [upgrade_slots_top, upgrade_slots_sub] at this
+  exact this
+
+/-- `InputAccepted` does not look at `node_port`: it holds for the record with the pinned listener port. -/
+theorem input_conflicts_dont_read_port :
+    inputConflictPairs.all (fun p => !p.1.reads portPath && !p.2.reads portPath) = true := by decide
+theorem triggers_dont_read_port : (requiredIfTriggers installPre).all (fun p => !p.1.reads portPath) = true := by decide
+
+theorem inputAccepted_pin (σ : Valuation) (l : Option AStr) (hσ : InputAccepted σ) : InputAccepted (pin σ l) := by
+  have hcongr : ∀ s : Src, s.reads portPath = false → evalSrc (pin σ l) s = evalSrc σ s :=
+    fun s hs => evalSrc_congr σ (pin σ l) portPath (fun q hq => pin_off σ l q hq) s hs
+  constructor
+  · intro p hp
+    have := List.all_eq_true.mp input_conflicts_dont_read_port p hp
+    simp only [Bool.and_eq_true, Bool.not_eq_true'] at this
+    rw [hcongr p.1 this.1, hcongr p.2 this.2]
+    exact hσ.conflictFree p hp
+  · intro p hp
+    have := List.all_eq_true.mp triggers_dont_read_port p hp
+    simp only [Bool.not_eq_true'] at this
+    rw [hcongr p.1 this]
+    exact hσ.noTrigger p hp
+
+/-- The slots of antnode's configuration an upgrade changes ON PURPOSE: the listener port, when the
+started node reported one (`on_start` pins it so that the node keeps its port over the restart).
+(The other purposeful differences of an upgrade — binary version, an `--env` given to `antctl upgrade` —
+are not arguments: `upgrade_settings_equiv`, `upgrade_environment`.) -/
+def upgradeChangedSlots : List String := ["port"]
+
+theorem only_port_entry_reads_port :
+    installPre.all (fun e => entryId activeTop e == some "port" || !e.reads portPath) = true := by decide
+theorem post_dont_read_port : installPost.all (fun e => !e.reads portPath) = true := by decide
+
+def portEntry : Entry := ⟨.isSome (.var ["node_port"]), some "port", some (.var ["node_port"], .display)⟩
+theorem port_entry_mem : portEntry ∈ installPre ∧ entryId activeTop portEntry = some "port" := by decide
+
+/-- The intended configuration of the record with the pinned port differs from the installed one in
+the slot `port` only, which holds the pinned port. -/
+theorem intended_pin (σ : Valuation) (l : Option AStr) :
+    (∀ id, id ∉ upgradeChangedSlots → intendedTop (pin σ l) id = intendedTop σ id) ∧
+    intendedTop (pin σ l) "port" = (match l with | some x => .one x.show | none => intendedTop σ "port") ∧
+    intendedSub (pin σ l) = intendedSub σ := by
+  refine ⟨?_, ?_, ?_⟩
+  · intro id hid
+    have hne : id ≠ "port" := by simpa [upgradeChangedSlots] using hid
+    apply slotsAfter_congr_off evmDisplay activeTop σ (pin σ l) portPath (fun q hq => pin_off σ l q hq) "port"
+      installPre Slots.empty Slots.empty _ (fun _ _ => rfl) id hne
+    intro e he
+    have := List.all_eq_true.mp only_port_entry_reads_port e he
+    simpa using this
+  · cases l with
+    | none => rw [pin_none]
+    | some x =>
+      unfold intendedTop
+      rw [slotsAfter_at evmDisplay activeTop (pin σ (some x)) "port" portEntry installPre Slots.empty
+        install_pre_ids_nodup port_entry_mem.1 port_entry_mem.2]
+      simp [portEntry, evalEntry, guardHolds, evalSrc, pin, ival, asWord, pvalOf]
+  · unfold intendedSub
+    exact slotsAfter_congr evmDisplay customDecls σ (pin σ l) portPath (fun q hq => pin_off σ l q hq)
+      installPost post_dont_read_port Slots.empty
+
+/-- **upgrade_interpreted_as_install.** For every option record antctl can hand to `add_node` and
+whatever listener port the started node reported before the upgrade (`listen`; `none` = never started):
+antnode accepts the arguments written at installation AND the arguments regenerated at upgrade, selects
+the same subcommand with the same subcommand options, and every top-level slot of the parsed
+configuration is the same — except exactly the slots of `upgradeChangedSlots` (`port`), which after an
+upgrade of a started node hold the pinned listener port. -/
+theorem upgrade_interpreted_as_install (σ : Valuation) (v : String)
+    (hv : σ ["options", "evm_network"] = .evm v) (hmem : v ∈ evmDisplay.map (·.1)) (hσ : InputAccepted σ)
+    (listen : Option AStr) :
+    ∃ x topI topU sub,
+      parseArgs (buildInstall σ) = .ok ⟨topI, some (x, sub)⟩ ∧
+      parseArgs (buildUpgrade (afterStart (recordOf σ) listen)) = .ok ⟨topU, some (x, sub)⟩ ∧
+      (∀ id, id ∉ upgradeChangedSlots → topU id = topI id) ∧
+      topU "port" = (match listen with | some l => .one l.show | none => topI "port") := by
+  obtain ⟨x, hx, hI⟩ := parse_build_is_intended σ v hv hmem hσ
+  have hv' : pin σ listen ["options", "evm_network"] = .evm v := by
+    rw [pin_off σ listen _ (by decide)]; exact hv
+  obtain ⟨x', hx', hU⟩ := parse_upgrade_accepted (pin σ listen) v hv' hmem (inputAccepted_pin σ listen hσ)
+  have hxx : x' = x := by rw [hx] at hx'; injection hx' with h; exact h.symm
+  subst hxx
+  obtain ⟨hoff, hport, hsub⟩ := intended_pin σ listen
+  rw [recordOf_pin, hsub] at hU
+  exact ⟨x'.2.1, intendedTop σ, intendedTop (pin σ listen), intendedSub σ, hI, hU, hoff, hport⟩
+
+/-- Without a pinned port (the node was never started, or reported the port it was installed with) the
+two parses are literally the same. -/
+theorem upgrade_parses_like_install (σ : Valuation) (v : String)
+    (hv : σ ["options", "evm_network"] = .evm v) (hmem : v ∈ evmDisplay.map (·.1)) (hσ : InputAccepted σ) :
+    ∃ p, parseArgs (buildInstall σ) = .ok p ∧ parseArgs (buildUpgrade (recordOf σ)) = .ok p := by
+  obtain ⟨x, _, hI⟩ := parse_build_is_intended σ v hv hmem hσ
+  obtain ⟨x', hx', hU⟩ := parse_upgrade_accepted σ v hv hmem hσ
+  have : x' = x := by rename_i hx; rw [hx] at hx'; injection hx' with h; exact h.symm
+  subst this
+  exact ⟨_, hI, hU⟩
 
 /-- Non-vacuity: a concrete record (home network, custom EVM network) is parsed back as intended. -/
 def exampleRecord : Valuation := fun p =>
@@ -392,6 +652,289 @@ to `new_custom` in the wrong order makes this false although every argument is s
 theorem custom_network_converted_as_intended :
     convertedCustom installPost = intentConverted ∧ convertedCustom upgradePost = intentConverted := by decide
 
+/-! ### Non-vacuity of the input-side predicate; K-t, the excluded case -/
+
+/-- `exampleRecord` is a record antctl can hand to `add_node` … -/
+theorem example_input_accepted : InputAccepted exampleRecord := ⟨by unfold InputConflictFree; decide, by decide⟩
+
+/-- the error of a parse, if any (`Parsed` holds functions, so results are compared through this) -/
+def errOf (r : Except PErr Parsed) : Option PErr := match r with | .error e => some e | .ok _ => none
+
+/-- … so all of the above applies to it. -/
+example : ∃ p, parseArgs (buildInstall exampleRecord) = .ok p ∧ parseArgs (buildUpgrade (recordOf exampleRecord)) = .ok p :=
+  upgrade_parses_like_install exampleRecord "Custom" rfl (by decide) example_input_accepted
+
+/-- … and after the node was started and reported port 4242, the upgrade pins exactly that. -/
+example : (match parseArgs (buildUpgrade (afterStart (recordOf exampleRecord) (some [.plain "4242"]))) with
+    | .ok p => (p.top "port", p.top "owner", p.top "home_network")
+    | .error _ => (.absent, .absent, .absent)) = (.one "4242", .one "ünal", .set) := by decide
+
+/-- K-t: the record with the metrics port pinned to `0` is NOT `InputAccepted`, and indeed the written
+arguments are rejected (`required_if_eq` of `--enable-metrics-server`). Known finding K-t-metrics-port-zero. -/
+def ktRecord : Valuation := fun p =>
+  if p = ["metrics_free_port"] then .opt (some [.plain "0"]) else exampleRecord p
+
+theorem kt_metrics_port_zero_rejected :
+    ¬ InputAccepted ktRecord ∧
+    errOf (parseArgs (buildInstall ktRecord)) = some (.requiredIf "enable_metrics_server") ∧
+    errOf (parseArgs (buildUpgrade (recordOf ktRecord))) = some (.requiredIf "enable_metrics_server") := by
+  refine ⟨fun h => ?_, by decide, by decide⟩
+  exact h.noTrigger (.var ["metrics_free_port"], "0") (by decide) (by decide)
+
+/-! ## The argv level: the strings of `ServiceInstallCtx.args` and clap's re-tokenisation
+
+`argv` (= `flatten`) is what both builders push: `--name`, `value` as separate strings, a list joined by
+`,`, the network as a bare word. `lex` is clap's tokeniser on antnode's declarations. The statements so far
+were about items; here they are about strings. -/
+
+theorem install_pre_lex_declared : installPre.all (entryLexDeclared activeTop) = true := by decide
+theorem upgrade_pre_lex_declared : upgradePre.all (entryLexDeclared activeTop) = true := by decide
+theorem install_post_lex_declared :
+    installPost.all (fun e => e.guard == .evmCustom evmSrc && entryLexDeclared customDecls e) = true := by decide
+theorem upgrade_post_lex_declared :
+    upgradePost.all (fun e => e.guard == .evmCustom evmSrc && entryLexDeclared customDecls e) = true := by decide
+theorem words_not_options : evmDisplay.all (fun kv => !looksLikeOption kv.2) = true := by decide
+
+/-- Upgrade and install arguments are lex-safe together (same multiset of items). -/
+theorem upgrade_values_lex_safe (σ : Valuation) :
+    ValuesLexSafe (buildUpgrade (recordOf σ)) = ValuesLexSafe (buildInstall σ) :=
+  valuesLexSafe_perm (upgrade_args_equiv σ)
+
+/-- **lex ∘ flatten = id on what the manager writes.** For every option record whose written values are
+lex-safe (`ValuesLexSafe`: no value looks like an option — starts with `-` and is not `-` alone —, list
+elements contain no `,`, lists are non-empty), clap's tokeniser recovers from the argument STRINGS exactly
+the items, at installation and at upgrade. -/
+theorem lex_flatten (σ : Valuation) (v : String)
+    (hv : σ ["options", "evm_network"] = .evm v) (hmem : v ∈ evmDisplay.map (·.1))
+    (hsafe : ValuesLexSafe (buildInstall σ) = true) :
+    lex activeTop activeSubs (argv (buildInstall σ)) = some (buildInstall σ) ∧
+    lex activeTop activeSubs (argv (buildUpgrade (recordOf σ))) = some (buildUpgrade (recordOf σ)) := by
+  have hsafeU : ValuesLexSafe (buildUpgrade (recordOf σ)) = true := by rw [upgrade_values_lex_safe]; exact hsafe
+  rw [buildInstall_eq] at hsafe ⊢
+  rw [buildUpgrade_eq] at hsafeU ⊢
+  exact ⟨lex_argv _ _ _ (lexable_of_shape evmDisplay activeTop activeSubs _ _ _ evmSrc install_shape
+            install_pre_lex_declared install_post_lex_declared words_not_options σ v hv hmem hsafe),
+         lex_argv _ _ _ (lexable_of_shape evmDisplay activeTop activeSubs _ _ _ evmSrc upgrade_shape
+            upgrade_pre_lex_declared upgrade_post_lex_declared words_not_options σ v hv hmem hsafeU)⟩
+
+/-- **argv_build_is_intended.** Tokenising and parsing the argument STRINGS written at installation, and
+those regenerated at upgrade, yields the intended configuration — for every option record antctl can hand
+to `add_node` whose written values are lex-safe. -/
+theorem argv_build_is_intended (σ : Valuation) (v : String)
+    (hv : σ ["options", "evm_network"] = .evm v) (hmem : v ∈ evmDisplay.map (·.1)) (hσ : InputAccepted σ)
+    (hsafe : ValuesLexSafe (buildInstall σ) = true) :
+    ∃ x, activeSubs.find? (fun x => x.1 == lookupD evmDisplay v) = some x ∧
+      parseArgStrings (argv (buildInstall σ)) = .ok ⟨intendedTop σ, some (x.2.1, intendedSub σ)⟩ ∧
+      parseArgStrings (argv (buildUpgrade (recordOf σ))) = .ok ⟨intendedTop σ, some (x.2.1, intendedSub σ)⟩ := by
+  obtain ⟨hlI, hlU⟩ := lex_flatten σ v hv hmem hsafe
+  obtain ⟨x, hx, hI⟩ := parse_build_is_intended σ v hv hmem hσ
+  obtain ⟨x', hx', hU⟩ := parse_upgrade_accepted σ v hv hmem hσ
+  have : x' = x := by rw [hx] at hx'; injection hx' with h; exact h.symm
+  subst this
+  refine ⟨x', hx, ?_, ?_⟩
+  · simp only [parseArgStrings, parseArgv, hlI]; exact hI
+  · simp only [parseArgStrings, parseArgv, hlU]; exact hU
+
+/-! ### Which written values are lex-safe by construction, and which are the user's -/
+
+def startsWithDigit (s : String) : Bool :=
+  match s.toList with
+  | c :: _ => c.isDigit
+  | [] => false
+
+theorem not_option_of_digit (s : String) (h : startsWithDigit s = true) : looksLikeOption s = false := by
+  unfold startsWithDigit at h
+  unfold looksLikeOption
+  cases hl : s.toList with
+  | nil => rfl
+  | cons c r =>
+    simp only [hl] at h
+    have hc : c ≠ '-' := by intro e; subst e; exact absurd h (by decide)
+    cases r with
+    | nil => rfl
+    | cons c₂ r' => simp [classify, hc]
+
+/-- Settings that antctl prints from a typed value whose `Display` starts with a decimal digit: socket
+address (IPv4), network id (`u8`), IPv4 address, ports (`u16`), file counts (`usize`), and the three
+`0x…` addresses. -/
+def digitSources : List Src := [
+  .var ["rpc_socket_addr"], .var ["options", "network_id"], .var ["options", "node_ip"], .var ["node_port"],
+  .var ["metrics_free_port"], .var ["options", "max_archived_log_files"], .var ["options", "max_log_files"],
+  .var ["options", "rewards_address"], .var ["options", "evm_network", "payment_token_address"],
+  .var ["options", "evm_network", "data_payments_address"]]
+
+/-- Settings whose text is the user's: directories (the service directories are `<dir given to antctl>/<service
+name>`), the owner, the RPC URL of a custom network, and the two lists (peers, contact URLs). -/
+def userSources : List (Src × Render) := [
+  (.var ["service_data_dir_path"], .lossy), (.var ["service_log_dir_path"], .lossy),
+  (.var ["options", "peers_args", "bootstrap_cache_dir"], .lossy),
+  (.fold .lower (.var ["options", "owner"]), .display),
+  (.var ["options", "evm_network", "rpc_url_http"], .display),
+  (.var ["options", "peers_args", "addrs"], .joinComma),
+  (.var ["options", "peers_args", "network_contacts_url"], .joinComma)]
+
+inductive VClass where
+  | noValue | digits | logFormat | word | user | unknown
+  deriving DecidableEq, Repr
+
+def entryClass (e : Entry) : VClass :=
+  match e.value with
+  | none => .noValue
+  | some (s, r) =>
+    if e.flag.isNone then (if s = evmSrc ∧ r = .display then .word else .unknown)
+    else if r ≠ .joinComma ∧ s ∈ digitSources then .digits
+    else if s = .var ["options", "log_format"] ∧ r = .asStr then .logFormat
+    else if (s, r) ∈ userSources then .user
+    else .unknown
+
+/-- Every value either builder writes falls in one of the classes … -/
+theorem install_values_classified : installResolved.all (fun e => entryClass e != .unknown) = true := by decide
+/-- … and the user's strings are exactly these options. -/
+theorem user_valued_options :
+    (installResolved.filter (fun e => entryClass e == .user)).map (·.flag) =
+      [some "root-dir", some "log-output-dest", some "peer", some "network-contacts-url",
+       some "bootstrap-cache-dir", some "owner", some "rpc-url"] := by decide
+
+/-- The typed settings have the shape their Rust types print: present-or-absent single values starting
+with a digit; the log format one of the words `LogFormat::as_str` prints. -/
+structure WellFormatted (σ : Valuation) : Prop where
+  digits : ∀ s ∈ digitSources, ∃ o, evalSrc σ s = .opt o ∧ ∀ a, o = some a → startsWithDigit a.show = true
+  logFormat : ∃ o, σ ["options", "log_format"] = .opt o ∧ ∀ a, o = some a → a.show ∈ logFormatAsStr.map (·.2)
+
+/-- **The named hypothesis on user-supplied strings**: the directories, the owner (lower-cased), the
+custom network's RPC URL, and the peer / contact-URL lists, as written, are lex-safe. (antctl's own clap
+parser guarantees the list part — it splits at `,` itself — and guarantees the no-leading-`-` part only
+for values given as `--opt value`, not for `--opt=-value`: known finding K-t-hyphen-value.) -/
+def UserStringsLexSafe (σ : Valuation) : Prop :=
+  ∀ e ∈ installResolved, entryClass e = .user → ∀ it, evalEntry evmDisplay σ e = some it → it.value.lexSafe = true
+
+theorem log_format_words_not_options : logFormatAsStr.all (fun kv => !looksLikeOption kv.2) = true := by decide
+
+/-- **values_lex_safe.** Every value the manager writes is lex-safe, for every option record whose typed
+settings print as their types do (`WellFormatted`) and whose user-supplied strings are lex-safe
+(`UserStringsLexSafe`). So `ValuesLexSafe` is a hypothesis about the user's strings only. -/
+theorem values_lex_safe (σ : Valuation) (v : String)
+    (hv : σ ["options", "evm_network"] = .evm v) (hmem : v ∈ evmDisplay.map (·.1))
+    (hfmt : WellFormatted σ) (huser : UserStringsLexSafe σ) :
+    ValuesLexSafe (buildInstall σ) = true ∧ ValuesLexSafe (buildUpgrade (recordOf σ)) = true := by
+  suffices h : ValuesLexSafe (buildInstall σ) = true from ⟨h, by rw [upgrade_values_lex_safe]; exact h⟩
+  rw [buildInstall_eq]
+  simp only [ValuesLexSafe, List.all_eq_true]
+  intro it hit
+  simp only [interp, List.mem_filterMap] at hit
+  obtain ⟨e, he, hev⟩ := hit
+  have hcls := List.all_eq_true.mp install_values_classified e he
+  obtain ⟨hg, hitv⟩ := evalEntry_some evmDisplay σ e it hev
+  cases hc : entryClass e with
+  | unknown => simp [hc] at hcls
+  | user => exact huser e he hc it hev
+  | noValue =>
+    unfold entryClass at hc
+    cases hvv : e.value with
+    | none => rw [hitv]; simp [hvv, IVal.lexSafe]
+    | some sr => obtain ⟨s, r⟩ := sr; simp only [hvv] at hc; split at hc <;> (try split at hc) <;> (try split at hc) <;> (try split at hc) <;> simp at hc
+  | word =>
+    unfold entryClass at hc
+    cases hvv : e.value with
+    | none => simp [hvv] at hc
+    | some sr =>
+      obtain ⟨s, r⟩ := sr
+      simp only [hvv] at hc
+      split at hc
+      · split at hc
+        · rename_i hsr
+          obtain ⟨hs, hr⟩ := hsr
+          subst hs; subst hr
+          rw [hitv]; simp only [hvv]
+          obtain ⟨w, hw, hm⟩ := lookupD_of_mem evmDisplay v hmem
+          have := List.all_eq_true.mp words_not_options (v, w) hm
+          simp only [ival, evmSrc, evalSrc, hv, asWord, hw, IVal.lexSafe]
+          exact this
+        · simp at hc
+      · split at hc <;> (try split at hc) <;> (try split at hc) <;> simp at hc
+  | digits =>
+    unfold entryClass at hc
+    cases hvv : e.value with
+    | none => simp [hvv] at hc
+    | some sr =>
+      obtain ⟨s, r⟩ := sr
+      simp only [hvv] at hc
+      split at hc
+      · split at hc <;> simp at hc
+      · split at hc
+        · rename_i hsr
+          obtain ⟨hr, hs⟩ := hsr
+          obtain ⟨o, ho, hdig⟩ := hfmt.digits s hs
+          rw [hitv]; simp only [hvv]
+          have hone : ival evmDisplay (evalSrc σ s) r = .one (asWord evmDisplay (evalSrc σ s)) := by
+            cases r <;> simp_all [ival]
+          rw [hone, ho]
+          simp only [IVal.lexSafe, Bool.not_eq_true', asWord]
+          cases o with
+          | none => rfl
+          | some a => exact not_option_of_digit _ (hdig a rfl)
+        · split at hc <;> (try split at hc) <;> simp at hc
+  | logFormat =>
+    unfold entryClass at hc
+    cases hvv : e.value with
+    | none => simp [hvv] at hc
+    | some sr =>
+      obtain ⟨s, r⟩ := sr
+      simp only [hvv] at hc
+      split at hc
+      · split at hc <;> simp at hc
+      · split at hc
+        · simp at hc
+        · split at hc
+          · rename_i hsr
+            obtain ⟨hs, hr⟩ := hsr
+            subst hs; subst hr
+            obtain ⟨o, ho, hlf⟩ := hfmt.logFormat
+            rw [hitv]; simp only [hvv]
+            simp only [ival, evalSrc, ho, IVal.lexSafe, Bool.not_eq_true']
+            cases o with
+            | none => rfl
+            | some a =>
+              have hm := hlf a rfl
+              obtain ⟨kv, hkv, hkv2⟩ := List.mem_map.mp hm
+              have := List.all_eq_true.mp log_format_words_not_options kv hkv
+              simp only [asWord, ← hkv2]
+              simpa using this
+          · split at hc <;> simp at hc
+
+/-- Non-vacuity: the example record is well formatted, its user strings are lex-safe, and its argument
+strings tokenise and parse to the intended configuration. -/
+example : ValuesLexSafe (buildInstall exampleRecord) = true := by decide
+example : (argv (buildInstall exampleRecord)).take 8 =
+    ["--rpc", "127.0.0.1:1", "--root-dir", "", "--log-output-dest", "", "--peer", "a,b"] := by decide
+example : ∃ x, parseArgStrings (argv (buildUpgrade (recordOf exampleRecord))) =
+    .ok ⟨intendedTop exampleRecord, some (x, intendedSub exampleRecord)⟩ := by
+  obtain ⟨x, _, _, h⟩ := argv_build_is_intended exampleRecord "Custom" rfl (by decide) example_input_accepted (by decide)
+  exact ⟨_, h⟩
+
+/-- **The excluded case at the argv level (known finding K-t-hyphen-value).** An owner given to antctl as
+`--owner=-x`: item for item the written arguments are the intended ones (the item-level parser accepts
+them), but the STRINGS `--owner`, `-x` are not: clap takes `-x` for an option. `ValuesLexSafe` is exactly
+what fails. The real antnode binary rejects these arguments (component `antnode_accepts`, op `lexprobe`). -/
+def hyphenOwnerRecord : Valuation := fun p =>
+  if p = ["options", "owner"] then .opt (some [.plain "-", .plain "x"]) else exampleRecord p
+
+theorem hyphen_value_rejected :
+    InputAccepted hyphenOwnerRecord ∧
+    ValuesLexSafe (buildInstall hyphenOwnerRecord) = false ∧
+    (∃ p, parseArgs (buildInstall hyphenOwnerRecord) = .ok p ∧ p.top "owner" = .one "-x") ∧
+    errOf (parseArgStrings (argv (buildInstall hyphenOwnerRecord))) = some .untokenisable ∧
+    errOf (parseArgStrings (argv (buildUpgrade (recordOf hyphenOwnerRecord)))) = some .untokenisable := by
+  have hacc : InputAccepted hyphenOwnerRecord := ⟨by unfold InputConflictFree; decide, by decide⟩
+  refine ⟨hacc, by decide, ?_, by decide, by decide⟩
+  obtain ⟨x, _, h⟩ := parse_build_is_intended hyphenOwnerRecord "Custom" rfl (by decide) hacc
+  exact ⟨_, h, (by decide : intendedTop hyphenOwnerRecord "owner" = .one "-x")⟩
+
+/-- What clap does with a delimiter inside a list element (not producible through antctl's own parser,
+which splits at `,` first): accepted, but as two elements. -/
+example : lex activeTop activeSubs ["--network-contacts-url", "http://h/x?a=1,2", "evm-arbitrum-one"] =
+    some [⟨some "network-contacts-url", .joined ["http://h/x?a=1", "2"]⟩, ⟨none, .one "evm-arbitrum-one"⟩] := by decide
+
 #print axioms SafeNet.Props.C20.upgrade_args_equiv
 #print axioms SafeNet.Props.C20.upgrade_settings_equiv
 #print axioms SafeNet.Props.C20.upgrade_environment
@@ -404,6 +947,15 @@ theorem custom_network_converted_as_intended :
 #print axioms SafeNet.Props.C20.install_table_is_intent
 #print axioms SafeNet.Props.C20.parse_build_is_intended
 #print axioms SafeNet.Props.C20.parse_upgrade_accepted
+#print axioms SafeNet.Props.C20.final_checks_top
+#print axioms SafeNet.Props.C20.final_checks_sub
+#print axioms SafeNet.Props.C20.upgrade_interpreted_as_install
+#print axioms SafeNet.Props.C20.upgrade_parses_like_install
+#print axioms SafeNet.Props.C20.kt_metrics_port_zero_rejected
+#print axioms SafeNet.Props.C20.lex_flatten
+#print axioms SafeNet.Props.C20.argv_build_is_intended
+#print axioms SafeNet.Props.C20.values_lex_safe
+#print axioms SafeNet.Props.C20.hyphen_value_rejected
 #print axioms SafeNet.Props.C20.custom_network_converted_as_intended
 #print axioms SafeNet.Props.C20.word_selects_same_network
 #print axioms SafeNet.Props.C20.log_format_values_accepted
